@@ -67,6 +67,8 @@ class Grow(Process):
     def next_update(self, timestep, states):
         key = (self.parameters['who'], self.k)
         self.k += 1
+        if CTX.get('empty_updates') and self.parameters['who'] == 'a':
+            return {}          # nothing to report this tick (a falsy result)
         if key not in CTX['deltas']:
             CTX['deltas'][key] = CTX['ctx'].int('d', -3, 3)
         return {'s': {'x': CTX['deltas'][key]}}
@@ -213,6 +215,7 @@ def body(ctx, cfg):
              'daughters': ctx.flag('pd') if cfg['op'] == 'divide' else False}
     if not any(flags.values()):
         return          # the all-serial run is the reference itself
+    CTX['empty_updates'] = ctx.flag('empty') if flags['a'] else False
     ctx.note('flags', flags)
     stubs.reset_sink()
     serial = run_once(ctx, cfg, dict.fromkeys(flags, False), ivs, 'serial')
